@@ -1,12 +1,22 @@
 /-
-  C16 — New mail wakes the daemon: no lost trigger (and, by correspondence, no busy loop).
+  C16 — New mail wakes the daemon: no lost trigger, no busy loop, never sleeps past its earliest due event.
 
-  Model: `Nq.Trigger`.  Tie: the real qmail-queue (two instances) and the real qmail-send run as
-  threads under qsim with every interleaving of their trigger-related system calls enumerated
-  (`harness/c16_trigger.c`); each trace is abstracted to `Trigger.Ev` and replayed through
-  `Trigger.accept`.
+  Part 1 (trigger protocol).  Model: `Nq.Trigger`.  Tie: the real qmail-queue (two instances) and the real
+  qmail-send run as threads under qsim with every interleaving of their trigger-related system calls
+  enumerated (`harness/c16_trigger.c`); each trace is abstracted to `Trigger.Ev` and replayed through
+  `Trigger.accept`.  Safety: `C16_no_lost_wakeup`, `C16_covered`, `C16_scan_complete`, `C16_order`.
+  Liveness in a bounded number of steps: `C16_bounded`, `C16_progress`, `C16_bounded_run`.
+
+  Part 2 (select preparation).  Model: `Nq.SelPrep` — `main()`'s `wakeup`/`timeout` computation through
+  pass_selprep, todo_selprep, cleanup_selprep and the descriptor sets of comm_selprep, del_selprep,
+  trigger_selprep, as a function of a snapshot of the daemon's globals.  Tie: `harness/c16_selprep.c` and
+  `harness/c16_trigger.c` read that snapshot out of the running qmail-send at every `select` and print it with
+  the timeout and descriptor sets the real code passed.  Theorems: `C16_no_spin`, `C16_early_return_acts`,
+  `C16_sleep_justified`, `C16_exit_when_drained`, `C16_pre_epoch`.
 -/
 import Nq.Trigger
+import Nq.Lemmas.TriggerLive
+import Nq.Lemmas.SelPrep
 
 namespace Nq.Props.C16
 open Nq Nq.Trigger
@@ -234,7 +244,374 @@ theorem C16_order (s s' : St) :
     · rename_i hg; exact hg.1
     · cases h
 
+/-! ### Bounded-steps liveness of the trigger protocol -/
+
+theorem reach_scanInv (s : St) (h : Reach s) : ScanInv s := by
+  obtain ⟨evs, h⟩ := h
+  exact scanInv_acceptAll evs {} s scanInv_init h
+
+/-- **Bounded steps** (decreasing measure `Trigger.phi`): from any state satisfying the scan invariant in
+which entry `n` is unprocessed, every run of the daemon *on its own* — no injector step, no 25-minute
+timer, whatever order readdir returns the entries in and whether or not it reports entries linked after
+opendir — that is `2·|todo| + 3` steps long has processed `n`.  (The bound is attained: `n` missing from the
+stream of a scan in progress costs the rest of that scan, closedir, close, open, opendir and a second scan.) -/
+theorem C16_bounded (s s' : St) (hi : ScanInv s) (n : Nat) (hm : n ∈ s.todo) (boot : Bool) (evs : List Ev)
+    (hrun : drun boot s evs = some s') (hlen : 2 * s.todo.length + 3 ≤ evs.length) : n ∉ s'.todo := by
+  intro hn'
+  have h1 := drun_short n evs boot s s' hi hm hrun hn'
+  have h2 := phi_le boot s n
+  omega
+
+/-- **Progress without the timer**: while an entry whose injector has completed its publish-then-signal steps
+is unprocessed, the daemon is never blocked — the step its code takes next is enabled and is one of its own
+steps (in `idle` that is because the FIFO is readable: select returns). -/
+theorem C16_progress (s : St) (hi : Inv s) (n : Nat) (hp : pulled (s.pc n) = true) (hm : n ∈ s.todo) :
+    ∃ e, dnext s = some e ∧ dAllowed false s e = true ∧ (accept s e).isSome = true := by
+  cases hd : s.d with
+  | idle =>
+    have hb : s.buf = true := by
+      rcases hi.cov n hp hm with h1 | h1 | h1 | ⟨r, h1, _⟩
+      · exact h1
+      · rw [hd] at h1; cases h1
+      · rw [hd] at h1; cases h1
+      · rw [hd] at h1; cases h1
+    have ho : s.dOpen = true := by
+      cases hdo : s.dOpen with
+      | true => rfl
+      | false => have := hi.open_iff.1 hdo; rw [hd] at this; cases this
+    exact ⟨.dClose, by simp [dnext, hd, hb], by simp [dAllowed, hd, hb], by simp [accept, hd, ho]⟩
+  | closed => exact ⟨.dOpen, by simp [dnext, hd], rfl, by simp [accept, hd]⟩
+  | reopened => exact ⟨.dOpendir, by simp [dnext, hd], rfl, by simp [accept, hd]⟩
+  | scanning rem =>
+    cases rem with
+    | nil => exact ⟨.dEnd, by simp [dnext, hd], rfl, by simp [accept, hd]⟩
+    | cons x r => exact ⟨.dRead x, by simp [dnext, hd], rfl, by simp [accept, hd]⟩
+
+theorem dauto_frame (k : Nat) : ∀ (s : St) (x : Nat), x ∈ (dauto k s).todo → x ∈ s.todo := by
+  induction k with
+  | zero => intro s x hx; exact hx
+  | succ k ih =>
+    intro s x hx
+    simp only [dauto] at hx
+    cases hn : dnext s with
+    | none => simpa [hn] using hx
+    | some e =>
+      cases ha : accept s e with
+      | none => simpa [hn, ha] using hx
+      | some s1 =>
+        simp only [hn, ha] at hx
+        have hx1 := ih s1 x hx
+        -- `dnext` only proposes daemon events
+        have hall : dAllowed true s e = true ∨ (e = .dClose ∧ s.d = .idle) := by
+          cases hd : s.d with
+          | idle => simp only [dnext, hd] at hn; split at hn <;> cases hn; exact Or.inr ⟨rfl, rfl⟩
+          | closed => simp only [dnext, hd] at hn; cases hn; exact Or.inl rfl
+          | reopened => simp only [dnext, hd] at hn; cases hn; exact Or.inl rfl
+          | scanning rem =>
+            cases rem with
+            | nil => simp only [dnext, hd] at hn; cases hn; exact Or.inl rfl
+            | cons y r => simp only [dnext, hd] at hn; cases hn; exact Or.inl rfl
+        rcases hall with hall | ⟨rfl, hd⟩
+        · exact (daemon_step_frame true s s1 e hall ha).1 x hx1
+        · simp only [accept, hd] at ha
+          split at ha
+          · cases ha; exact hx1
+          · cases ha
+
+/-- **Bounded steps, executable form**: the daemon's code running alone (`dauto`: close, open, opendir, readdir …,
+closedir, in program order) from any state satisfying the invariants in which `n` is unprocessed and its
+injector has finished (or at least written its byte) processes `n` within `2·|todo| + 3` steps. -/
+theorem C16_bounded_run (s : St) (hi : Inv s) (hs : ScanInv s) (n : Nat) (hp : pulled (s.pc n) = true)
+    (hm : n ∈ s.todo) : n ∉ (dauto (2 * s.todo.length + 3) s).todo := by
+  have key : ∀ (k : Nat) (s : St), Inv s → ScanInv s → pulled (s.pc n) = true → phi false s n ≤ k →
+      n ∉ (dauto k s).todo := by
+    intro k
+    induction k with
+    | zero =>
+      intro s _ _ _ hk hn
+      have := phi_pos false s n hn
+      omega
+    | succ k ih =>
+      intro s hi hs hp hk hn
+      have hm : n ∈ s.todo := dauto_frame _ s n hn
+      obtain ⟨e, he, hal, hsome⟩ := C16_progress s hi n hp hm
+      obtain ⟨s1, hacc⟩ := Option.isSome_iff_exists.1 hsome
+      simp only [dauto, he, hacc] at hn
+      have hm1 : n ∈ s1.todo := dauto_frame _ s1 n hn
+      have hlt := phi_step false s s1 e n hs hm hal hacc hm1
+      have hb : bootAfter false e = false := by cases e <;> rfl
+      rw [hb] at hlt
+      have hpc : s1.pc = s.pc := (daemon_step_frame false s s1 e hal hacc).2
+      exact ih s1 (step_inv s s1 e hi hacc) (scanInv_step s s1 e hs hacc) (by rw [hpc]; exact hp) (by omega) hn
+  exact key _ s hi hs hp (phi_le false s n)
+
+/-! ### The select preparation of qmail-send's main loop -/
+
+open Nq.SelPrep in
+/-- "something is pending now", spelled out: a pass has a free delivery slot and may proceed, or a todo scan is
+in progress (neither counts once exit was requested), or a cleanup scan is in progress, or one of the due
+times the daemon can act on (`SelPrep.dueTimes`, spelled out by `SelPrep.mem_dueTimes`) has been reached. -/
+def Pending (s : SelPrep.Snap) : Prop :=
+  (s.exitasap = false ∧ ∃ c, c ∈ s.chans ∧ c.passOpen = true ∧ delAvail c = true)
+  ∨ (s.exitasap = false ∧ s.tododir = true)
+  ∨ s.flagcleanup = true
+  ∨ ∃ t, t ∈ dueTimes s ∧ t ≤ s.recent
+
+open Nq.SelPrep in
+/-- the executable `SelPrep.pending` (the driver's oracle) is `Pending` -/
+theorem pending_iff (s : Snap) : pending s = true ↔ Pending s := by
+  simp only [pending, immediate, Pending, Bool.or_eq_true, Bool.and_eq_true, Bool.not_eq_true', List.any_eq_true,
+    decide_eq_true_eq]
+  constructor
+  · rintro (((⟨he, c, hc, hp, hd⟩ | h) | h) | h)
+    · exact Or.inl ⟨he, c, hc, hp, hd⟩
+    · exact Or.inr (Or.inl h)
+    · exact Or.inr (Or.inr (Or.inl h))
+    · exact Or.inr (Or.inr (Or.inr h))
+  · rintro (⟨he, c, hc, hp, hd⟩ | h | h | h)
+    · exact Or.inl (Or.inl (Or.inl ⟨he, c, hc, hp, hd⟩))
+    · exact Or.inl (Or.inl (Or.inr h))
+    · exact Or.inl (Or.inr h)
+    · exact Or.inr h
+
+open Nq.SelPrep in
+/-- **No spin, no oversleeping** (the whole chain `wakeup = recent + SLEEP_FOREVER`, pass_selprep, todo_selprep,
+cleanup_selprep, `tv.tv_sec = wakeup <= recent ? 0 : wakeup - recent + SLEEP_FUZZ`), for a clock at or after
+the epoch: the timeout is 0 exactly when something is pending now; otherwise it is positive, equals
+`wakeup - recent + SLEEP_FUZZ`, and `wakeup` is the *minimum* of `recent + SLEEP_FOREVER` and the due times the
+daemon can act on — it never sleeps past its earliest due event by more than the fuzz, never longer than
+`SLEEP_FOREVER + SLEEP_FUZZ`, and never wakes for a time that is not due. -/
+theorem C16_no_spin (s : Snap) (h0 : 0 ≤ s.recent) :
+    (timeout s = 0 ↔ Pending s) ∧
+    (¬ Pending s →
+      0 < timeout s ∧ timeout s = wakeup s - s.recent + SLEEP_FUZZ ∧
+      (∀ t, t ∈ dueTimes s → wakeup s ≤ t) ∧ wakeup s ≤ s.recent + SLEEP_FOREVER ∧
+      (wakeup s = s.recent + SLEEP_FOREVER ∨ wakeup s ∈ dueTimes s) ∧
+      timeout s ≤ SLEEP_FOREVER + SLEEP_FUZZ) := by
+  have hfz := fuzz_nonneg
+  have hfv := forever_pos
+  have hzero : timeout s = 0 ↔ wakeup s ≤ s.recent := by
+    unfold timeout
+    constructor
+    · intro h; split at h
+      · assumption
+      · omega
+    · intro h; rw [if_pos h]
+  cases him : immediate s with
+  | true =>
+    have hw := wakeup_of_immediate s him
+    have hp : Pending s := (pending_iff s).1 (by simp [pending, him])
+    exact ⟨⟨fun _ => hp, fun _ => hzero.2 (by omega)⟩, fun hn => absurd hp hn⟩
+  | false =>
+    have hw := wakeup_of_not_immediate s him
+    have hpend : Pending s ↔ ∃ t, t ∈ dueTimes s ∧ t ≤ s.recent := by
+      rw [← pending_iff]; simp [pending, him]
+    have hle : wakeup s ≤ s.recent ↔ ∃ t, t ∈ dueTimes s ∧ t ≤ s.recent := by
+      rw [hw, lowerL_le_iff]
+      constructor
+      · rintro (h | h)
+        · omega
+        · exact h
+      · exact Or.inr
+    refine ⟨by rw [hzero, hle, hpend], ?_⟩
+    intro hn
+    have hgt : ¬ wakeup s ≤ s.recent := fun h => hn (hpend.2 (hle.1 h))
+    have hto : timeout s = wakeup s - s.recent + SLEEP_FUZZ := by unfold timeout; rw [if_neg hgt]
+    have hinit : wakeup s ≤ s.recent + SLEEP_FOREVER := by rw [hw]; exact lowerL_le_init _ _
+    refine ⟨by omega, hto, ?_, hinit, ?_, by omega⟩
+    · intro t ht; rw [hw]; exact lowerL_le_mem _ _ _ ht
+    · rw [hw]; exact lowerL_mem _ _
+
+open Nq.SelPrep in
+/-- pending work passes the guards of the loop body, whatever descriptors are ready and however far the clock
+has moved on -/
+theorem pending_acts (s : Snap) (r' : Int) (hr : s.recent ≤ r') (ready : Fd → Bool) (hp : Pending s) :
+    bodyActs { s with recent := r' } ready = true := by
+  simp only [bodyActs, Bool.or_eq_true]
+  rcases hp with ⟨he, c, hc, hp, hd⟩ | ⟨he, ht⟩ | hcl | ⟨t, ht, hle⟩
+  · left; right
+    simp only [passDoActs, Bool.or_eq_true, List.any_eq_true]
+    exact Or.inl (Or.inl ⟨c, hc, by simp [passChanActs, he, hp, hd]⟩)
+  · left; left; right; simp [todoDoActs, he, ht]
+  · right; simp [cleanupDoActs, hcl]
+  · rcases (mem_dueTimes s t).1 ht with ⟨he, hj, c, hc, hp, hq⟩ | ⟨he, hq⟩ | ⟨he, hq⟩ | ⟨he, rfl⟩ | rfl
+    · left; right
+      simp only [passDoActs, Bool.or_eq_true, List.any_eq_true]
+      refine Or.inl (Or.inl ⟨c, hc, ?_⟩)
+      have hdue : due r' c.pqMin = true := by rw [hq]; simp only [due, decide_eq_true_eq]; omega
+      simp only [passChanActs, hp, hdue, Bool.and_true, Bool.false_eq_true, if_false, Bool.and_eq_true,
+        Bool.not_eq_true']
+      exact ⟨he, hj⟩
+    · left; right
+      simp only [passDoActs, Bool.or_eq_true]
+      refine Or.inl (Or.inr ?_)
+      simp only [hq, due, decide_eq_true_eq]; omega
+    · left; right
+      simp only [passDoActs, Bool.or_eq_true]
+      refine Or.inr ?_
+      simp only [hq, due, decide_eq_true_eq]; omega
+    · left; left; right
+      simp only [todoDoActs, he, Bool.not_false, Bool.true_and, Bool.or_eq_true, decide_eq_true_eq]
+      right; omega
+    · right
+      simp only [cleanupDoActs, Bool.or_eq_true, decide_eq_true_eq]
+      right; omega
+
+open Nq.SelPrep in
+/-- **A select that does not sleep is followed by work**: if the timeout was 0, or select returned because a
+descriptor of the prepared sets was ready, then (whatever the clock reads afterwards) at least one of comm_do,
+del_do, todo_do, pass_do, cleanup_do gets past its guards — in particular the FIFO is only watched while
+todo_do will act on it (not after exit was requested), so a pulled trigger cannot make the loop spin. -/
+theorem C16_early_return_acts (s : Snap) (h0 : 0 ≤ s.recent) (r' : Int) (hr : s.recent ≤ r') (ready : Fd → Bool)
+    (h : timeout s = 0 ∨ ∃ f, f ∈ rfds s ++ wfds s ∧ ready f = true) :
+    bodyActs { s with recent := r' } ready = true := by
+  rcases h with h | ⟨f, hf, hrd⟩
+  · exact pending_acts s r' hr ready ((C16_no_spin s h0).1.1 h)
+  · simp only [bodyActs, Bool.or_eq_true]
+    rcases List.mem_append.1 hf with hf | hf
+    · rcases List.mem_append.1 hf with hf | hf
+      · left; left; left; right
+        exact delDoActs_of_mem ready f hrd 0 s.chans hf
+      · left; left; right
+        simp only [todoWatch] at hf
+        split at hf
+        · rename_i hc
+          simp only [List.mem_singleton] at hf; subst hf
+          simp only [Bool.and_eq_true, Bool.not_eq_true'] at hc
+          simp [todoDoActs, hc.1, hc.2, hrd]
+        · simp at hf
+    · left; left; left; left
+      exact commDoActs_of_mem ready f hrd 0 s.chans hf
+
+open Nq.SelPrep in
+/-- **A sleep is justified**: with no descriptor ready, the loop body would act exactly when something is
+pending — so (by `C16_no_spin`) a positive timeout is only ever requested when none of the five `*_do`
+functions has anything to do.  The one exception is stated, not hidden: once exit was requested pass_selprep
+ignores pqfail/pqdone, although pass_do would still process them; the daemon then wakes for the reports of the
+deliveries still in flight (and for cleanup) only. -/
+theorem C16_sleep_justified (s : Snap) :
+    bodyActs s (fun _ => false) = true ↔
+      Pending s ∨ (s.exitasap = true ∧ (due s.recent s.pqfailMin = true ∨ due s.recent s.pqdoneMin = true)) := by
+  simp only [bodyActs, commDoActs_none, delDoActs_none, Bool.false_or, Bool.or_eq_true]
+  constructor
+  · rintro ((ht | hp) | hc)
+    · simp only [todoDoActs, Bool.and_eq_true, Bool.not_eq_true', Bool.or_eq_true, Bool.and_false, Bool.false_eq_true,
+        or_false, decide_eq_true_eq] at ht
+      obtain ⟨he, ht | ht⟩ := ht
+      · exact Or.inl (Or.inr (Or.inl ⟨he, ht⟩))
+      · exact Or.inl (Or.inr (Or.inr (Or.inr ⟨_, (mem_dueTimes s _).2 (Or.inr (Or.inr (Or.inr (Or.inl ⟨he, rfl⟩)))), ht⟩)))
+    · simp only [passDoActs, Bool.or_eq_true, List.any_eq_true] at hp
+      rcases hp with (⟨c, hc, hp⟩ | hp) | hp
+      · simp only [passChanActs, Bool.and_eq_true, Bool.not_eq_true'] at hp
+        obtain ⟨he, hp⟩ := hp
+        cases hpo : c.passOpen with
+        | true =>
+          simp only [hpo, if_true] at hp
+          exact Or.inl (Or.inl ⟨he, c, hc, hpo, hp⟩)
+        | false =>
+          simp only [hpo, Bool.false_eq_true, if_false, Bool.and_eq_true] at hp
+          obtain ⟨t, hq, hle⟩ := (due_iff _ _).1 hp.2
+          exact Or.inl (Or.inr (Or.inr (Or.inr ⟨t, (mem_dueTimes s t).2 (Or.inl ⟨he, hp.1, c, hc, hpo, hq⟩), hle⟩)))
+      · cases he : s.exitasap with
+        | true => exact Or.inr ⟨rfl, Or.inl hp⟩
+        | false =>
+          obtain ⟨t, hq, hle⟩ := (due_iff _ _).1 hp
+          exact Or.inl (Or.inr (Or.inr (Or.inr ⟨t, (mem_dueTimes s t).2 (Or.inr (Or.inl ⟨he, hq⟩)), hle⟩)))
+      · cases he : s.exitasap with
+        | true => exact Or.inr ⟨rfl, Or.inr hp⟩
+        | false =>
+          obtain ⟨t, hq, hle⟩ := (due_iff _ _).1 hp
+          exact Or.inl (Or.inr (Or.inr (Or.inr ⟨t, (mem_dueTimes s t).2 (Or.inr (Or.inr (Or.inl ⟨he, hq⟩))), hle⟩)))
+    · simp only [cleanupDoActs, Bool.or_eq_true, decide_eq_true_eq] at hc
+      rcases hc with hc | hc
+      · exact Or.inl (Or.inr (Or.inr (Or.inl hc)))
+      · exact Or.inl (Or.inr (Or.inr (Or.inr ⟨_, (mem_dueTimes s _).2 (Or.inr (Or.inr (Or.inr (Or.inr rfl)))), hc⟩)))
+  · rintro (hp | ⟨he, hd⟩)
+    · have := pending_acts s s.recent (Int.le_refl _) (fun _ => false) hp
+      simpa [bodyActs, commDoActs_none, delDoActs_none] using this
+    · left; right
+      simp only [passDoActs, Bool.or_eq_true]
+      rcases hd with hd | hd
+      · exact Or.inl (Or.inr hd)
+      · exact Or.inr hd
+
+open Nq.SelPrep in
+/-- **Exit**: the loop is left exactly when exit was requested and no live spawner has a delivery in flight; until
+then `C16_no_spin` applies with the exit-requested reading of `dueTimes` (only the cleanup timer). -/
+theorem C16_exit_when_drained (s : Snap) :
+    loopContinues s = false ↔ s.exitasap = true ∧ ∀ c, c ∈ s.chans → c.spawnAlive = true → c.used = 0 := by
+  simp only [loopContinues, delCanexit, Bool.or_eq_false_iff, Bool.not_eq_false', List.all_eq_true, Bool.or_eq_true,
+    Bool.not_eq_true', beq_iff_eq]
+  constructor
+  · rintro ⟨he, h⟩
+    refine ⟨he, fun c hc ha => ?_⟩
+    rcases h c hc with h1 | h1
+    · rw [ha] at h1; cases h1
+    · exact h1
+  · rintro ⟨he, h⟩
+    refine ⟨he, fun c hc => ?_⟩
+    cases ha : c.spawnAlive with
+    | false => exact Or.inl rfl
+    | true => exact Or.inr (h c hc ha)
+
+open Nq.SelPrep in
+/-- **The excluded inputs** (`recent < 0`, a system clock before 1970): `*wakeup = 0` is the literal epoch, not
+`recent`, so with immediate work pending and no negative due time the code asks select for `-recent + SLEEP_FUZZ`
+seconds instead of 0 — it sleeps with work pending.  Not reachable with a sane clock; stated so that the
+hypothesis `0 ≤ recent` of `C16_no_spin` is not a silent restriction. -/
+theorem C16_pre_epoch (s : Snap) (hneg : s.recent < 0) (him : immediate s = true)
+    (hd : ∀ t, t ∈ dueTimes s → 0 ≤ t) (hr : 0 ≤ s.recent + SLEEP_FOREVER) :
+    timeout s = 0 - s.recent + SLEEP_FUZZ ∧ 0 < timeout s := by
+  have hw := wakeup_immediate_eq_zero s him hd hr
+  have hfz := fuzz_nonneg
+  have : timeout s = 0 - s.recent + SLEEP_FUZZ := by
+    unfold timeout; rw [hw, if_neg (by omega)]
+  exact ⟨this, by omega⟩
+
 /-! ### Non-vacuity -/
+
+section
+open Nq.SelPrep
+
+/-- nothing queued, no scan: the daemon sleeps until the forced todo rescan, `SLEEP_TODO + SLEEP_FUZZ` -/
+example : timeout { recent := 1000000000, chans := [{ conc := 5 }, { conc := 5 }], jobRefs := [0, 0], nexttodorun := 1000001500, cleanuptime := 1000076431 } = 1501 := by decide
+
+/-- a deferred message on the remote channel is the earliest event; the local pass has no free slot -/
+example : timeout { recent := 1000000000, chans := [{ conc := 1, used := 1, passOpen := true, pqMin := some 1000000100 }, { conc := 5, pqMin := some 1000000400 }], jobRefs := [1, 0], nexttodorun := 1000001500, cleanuptime := 1000076431 } = 401 := by decide
+
+/-- the same with a free local slot: the pass proceeds, timeout 0 -/
+example : timeout { recent := 1000000000, chans := [{ conc := 2, used := 1, passOpen := true }, { conc := 5, pqMin := some 1000000400 }], jobRefs := [1, 0], nexttodorun := 1000001500, cleanuptime := 1000076431 } = 0 := by decide
+
+/-- exit requested with a delivery in flight: only the cleanup timer counts, the FIFO is not watched -/
+example : (fun s => (loopContinues s, timeout s, rfds s)) { recent := 1000000000, exitasap := true, chans := [{ conc := 2, used := 1 }, { conc := 5, pqMin := some 999999999 }], jobRefs := [1, 0], tododir := true, nexttodorun := 999999000, cleanuptime := 1000000010 } = (true, 11, [.delIn 0, .delIn 1]) := by decide
+
+/-- `Pending` and its negation are both inhabited -/
+example : Pending { recent := 10, tododir := true } := Or.inr (Or.inl ⟨rfl, rfl⟩)
+example : ¬ Pending { recent := 10, nexttodorun := 20, cleanuptime := 30 } := by
+  rw [← pending_iff]; decide
+
+/-- the pre-epoch case really sleeps -/
+example : timeout { recent := -5, flagcleanup := true, nexttodorun := 0, cleanuptime := 3 } = 6 := by decide
+end
+
+/-- the bound of `C16_bounded` is attained: entry 5 is linked and signalled while a scan that does not see it is
+under way (todo = [5], bound 2·1+3 = 5); four daemon steps (closedir, close, open, opendir) do not suffice, the
+fifth (readdir) processes it -/
+example : (acceptAll {} [.dOpen, .dClose, .dOpen, .dOpendir, .iLink 5, .iOpen 5 true, .iWrite 5 true, .iClose 5]).bind
+      (fun s => (drun false s [.dEnd, .dClose, .dOpen, .dOpendir]).bind
+        (fun s4 => (drun false s4 [.dRead 5]).map (fun s5 => (s.todo, s4.todo, s5.todo, phi false s 5))))
+    = some ([5], [5], [], 5) := by
+  decide
+
+/-- … and the code's own order (`dauto`) takes exactly those steps -/
+example : (acceptAll {} [.dOpen, .dClose, .dOpen, .dOpendir, .iLink 5, .iOpen 5 true, .iWrite 5 true, .iClose 5]).map
+      (fun s => ((dauto 4 s).todo, (dauto 5 s).todo)) = some ([5], []) := by
+  decide
+
+/-- without a pull the daemon's own steps do not include re-arming: the timer-driven close is not `dAllowed` -/
+example : (acceptAll {} [.dOpen, .dClose, .dOpen, .dOpendir, .dEnd, .iLink 5]).bind (fun s => drun false s [.dClose]) = none := by
+  decide
+
 
 /-- two injectors; the second links and pulls while the daemon is between close and reopen (ENXIO):
 still covered, and picked up by the scan that follows -/
